@@ -7,6 +7,7 @@ import Mimium.Proofs.TypeRecDetect
 import Mimium.Gen.TypingFacts
 import Mimium.Gen.ParentWriters
 import Mimium.Proofs.UnifyTermTop
+import Mimium.Proofs.UnifyFuel
 /-!
 # C04 — front end and compile entry points are total on arbitrary text
 
@@ -678,6 +679,21 @@ theorem C04_unify_sequence_terminates (g f : Nat) (reqs : List (Bool × Unify.Ty
     (h : runSeq g f [] reqs = some σ) (k : Bool) (a b : Unify.Ty) :
     ∃ σ' r, go (fuelG σ a b) (fuelF σ a b) k σ a b = some (σ', r) :=
   go_terminates σ a b (C04_unify_sequence_acyclic g f reqs σ h).1 k _ _ (Nat.le_refl _) (Nat.le_refl _)
+
+open Mimium.Unify in
+/-- The fuel is not observable: an answer given with fuels `(g, f)` is given with all larger fuels … -/
+theorem C04_unify_fuel_monotone (g g' f f' : Nat) (hg : g ≤ g') (hf : f ≤ f') (args : Bool) (σ : Unify.Store) (t1 t2 : Unify.Ty)
+    (o : Unify.Store × Res) (h : go g f args σ t1 t2 = some o) : go g' f' args σ t1 t2 = some o :=
+  go_mono hg f f' hf args σ t1 t2 o h
+
+open Mimium.Unify in
+/-- … so above the bound of `C04_unify_terminates` every pair of fuels gives the SAME store and answer: on acyclic stores the ported
+`unify_types` / `unify_types_args` are total functions of (store, types). -/
+theorem C04_unify_fuel_irrelevant (σ : Unify.Store) (t1 t2 : Unify.Ty) (hσ : Occurs.Acyclic (absS σ)) (args : Bool) (g f g' f' : Nat)
+    (hg : fuelG σ t1 t2 ≤ g) (hf : fuelF σ t1 t2 ≤ f) (hg' : fuelG σ t1 t2 ≤ g') (hf' : fuelF σ t1 t2 ≤ f') :
+    go g f args σ t1 t2 = go g' f' args σ t1 t2 := by
+  obtain ⟨σ', r, h⟩ := go_terminates σ t1 t2 hσ args _ _ (Nat.le_refl _) (Nat.le_refl _)
+  rw [go_mono hg _ f hf args σ t1 t2 _ h, go_mono hg' _ f' hf' args σ t1 t2 _ h]
 
 /-- non-vacuity: the bound on a request with a binding and a one-sided descent; and fuel 1 is not enough -/
 example : Unify.fuelG [] (.fn (.var 0) (.prim .num)) (.fn (.tuple [.prim .num]) (.var 1)) = 81 ∧
